@@ -537,7 +537,7 @@ def splice_fn(repo, file, item_path, sections, trait=None, nth=0, opts=(), canar
                 ed.ins_before(body_ci[p0], '({ let mut cv_any%s = false; %s let mut cv_ait%s = (' % (kk, sections.get('any_before ' + dk_id, '').strip(), kk))
                 ed.replace(body_ci[pm - 1], body_ci[q], ').into_iter(); while let Some(%s) = cv_ait%s.next() %s { %s if ' % (
                     pat, kk, sections.get('any_inv ' + dk_id, '').strip(), sections.get('any_body ' + dk_id, '').strip()))
-                ed.replace(call_close, call_close, ' { cv_any%s = true; break; } } cv_any%s })' % (kk, kk))
+                ed.replace(call_close, call_close, ' { cv_any%s = true; break; } } %s cv_any%s })' % (kk, sections.get('any_after ' + dk_id, '').strip(), kk))
                 rules['X2f-any'] = rules.get('X2f-any', 0) + 1
                 dropped.append('%s:%d Iterator::any with an inline closure written as the loop it abbreviates (X2f)' % (file, toks[body_ci[pm]].line))
                 continue
@@ -549,7 +549,7 @@ def splice_fn(repo, file, item_path, sections, trait=None, nth=0, opts=(), canar
                 ed.ins_before(body_ci[p0], '({ let mut cv_any%s = None; %s let mut cv_ait%s = (' % (kk, sections.get('any_before ' + dk_id, '').strip(), kk))
                 ed.replace(body_ci[pm - 1], body_ci[q], ').into_iter(); while let Some(cv_item%s) = cv_ait%s.next() %s { %s if { let %s = &cv_item%s; ' % (
                     kk, kk, sections.get('any_inv ' + dk_id, '').strip(), sections.get('any_body ' + dk_id, '').strip(), pat, kk))
-                ed.replace(call_close, call_close, ' } { cv_any%s = Some(cv_item%s); break; } } cv_any%s })' % (kk, kk, kk))
+                ed.replace(call_close, call_close, ' } { cv_any%s = Some(cv_item%s); break; } } %s cv_any%s })' % (kk, kk, sections.get('any_after ' + dk_id, '').strip(), kk))
                 rules['X2f-find'] = rules.get('X2f-find', 0) + 1
                 dropped.append('%s:%d Iterator::find with an inline closure written as the loop it abbreviates (X2f)' % (file, toks[body_ci[pm]].line))
                 continue
